@@ -5,7 +5,7 @@ import warnings; warnings.filterwarnings('ignore')
 from supvsim import batch, kernel
 n = int(sys.argv[1])
 out = []
-for prop in ('C16', 'C08'):
+for prop in ('C16', 'C08', 'C11', 'C13', 'C17', 'C19', 'C20'):
     for i in range(n):
         seed = kernel.hash64(7, prop, i) % (1 << 48)
         res = batch.run_seed(prop, seed, i)
